@@ -178,9 +178,10 @@ CLAIMED = {
         text="Machine-checked proof over the guard logic: the safe-mode set contains every top-level def/class, every collected top-level assignment target, every "
              "Class.method and Class.attribute pair and the caller's names; a guarded rule touches no name of the set, and a rule that renames or moves class members "
              "(it looks up the bare name and Class.member) touches no member of a top-level class (safe_class_member_ok); a lookup by the bare name alone would miss them "
-             "(witness theorem - the defect repaired by 00fac0d). 4 theorems.",
+             "(witness theorem - the defect repaired by 00fac0d); the `_` guard of delete_pointless_statements keeps a member named _ of a top-level class and a top-level _ "
+             "(safe_underscore_member_kept, safe_underscore_toplevel_kept; without the Class._ lookup the member is lost - witness theorem, the defect repaired by 995e49d). 7 theorems.",
         design="4/C07",
-        note="Trusted: Lean kernel; Preserve.lean tied by suite safeset (the set really handed to the rules, captured from the harness); that every rule consults "
+        note="Trusted: Lean kernel; Preserve.lean tied by suites safeset (the set really handed to the rules, captured from the harness) and underscore-guard (the real delete_pointless_statements on 384 body / tail / preserve-set combinations); that every rule consults "
              "preserve is examined by the surface oracle on library-like modules and the corpus.",
         technique="Lean 4 proof (set membership / guard) + differential correspondence of the captured preserve set + surface-name oracle",
     ),
